@@ -311,10 +311,11 @@ func (w *World) park(ctx context.Context, op, note string, cond func() bool, loc
 		if w.parked[key] == p {
 			delete(w.parked, key)
 		}
-		if op != "body.Read" {
-			// (a body reader that outlives its request just goes away: whether it had parked yet
-			// depends on goroutine start-up timing, so it leaves no trace in the event log)
-			w.selfWoken = append(w.selfWoken, key+"@"+op)
+		// Whether the task had parked yet when its context was cancelled depends on goroutine start-up
+		// timing (both happen within one scheduler step), so a yield that ends this way leaves no trace:
+		// no line in the event log and no yield number consumed.
+		if !lockWait && w.yieldCount[key] == n+1 {
+			w.yieldCount[key] = n
 		}
 		w.mu.Unlock()
 		return &Fault{Kind: FCancelled}
